@@ -35,6 +35,9 @@ HOSTILE_SIGS = [
     'a()', 'a{}', 'a(()())', 'aa()', 'a(a())', 'a{}a{}', '()', '{}', 'a' * 254 + 'y', 'a' * 255, '(' * 127 + 'y' + ')' * 127,
     'a' + '(' * 126 + 'y' + ')' * 126, '(((', '(i', 'a{s', '{', '}', ')', 'ai)', 'a', 'ia', 'z', 'i z', '', 'a{ii', 'a{(i)i}',
     'a(' + 'a' * 100 + 'y)', 'v' * 255, 'a{sv}' * 51, '(' + 'i' * 253 + ')', 'a(y', 'aa', 'a)', 'a}',
+    # every element type with a lying array length, in particular those whose decoder might not look at the bytes:
+    # descriptors (resolved through a side list), booleans, empty-ish structs
+    'ah', 'a(h)', 'a{sh}', 'a(hy)', 'aah', 'ab', 'a(b)', 'ad', 'ax', 'ag', 'ao', 'a(yh)', 'av',
 ]
 
 _CANARY = R.encode_message(1, 5, {1: '/a', 3: 'Ping', 6: 'a.b'}, 'sau', ['x', [1, 2]])
@@ -213,7 +216,7 @@ def hostile_case(draw, tier):
         mtype = draw(st.sampled_from([1, 2, 3, 4]))
         fields = {1: {1: '/a', 3: 'M'}, 2: {5: 7}, 3: {4: 'a.b', 5: 7}, 4: {1: '/a', 2: 'a.b', 3: 'S'}}[mtype]
         hs = draw(st.one_of(st.sampled_from(HOSTILE_SIGS),
-                            st.text(alphabet='a(){}yisv', min_size=1, max_size=40)))
+                            st.text(alphabet='a(){}yisvhb', min_size=1, max_size=40)))
         body = draw(st.one_of(
             st.binary(max_size=64),
             st.integers(0, 2**32 - 1).map(lambda n: struct.pack('<I' if little else '>I', n) + b'\0' * 12),
